@@ -5,8 +5,12 @@ package gff
 import (
 	"bytes"
 	"io"
+	"math"
 
+	"github.com/biogo/biogo/alphabet"
 	"github.com/biogo/biogo/feat"
+	"github.com/biogo/biogo/seq"
+	"github.com/biogo/biogo/seq/linear"
 )
 
 func verifRead(r *Reader) (f feat.Feature, err error, panicked bool) {
@@ -124,5 +128,206 @@ func VerifC03_GffStructured() {
 		verifAssert(!panicked2 && rerr2 == io.EOF, "structured-then-eof")
 	}
 	verifObserve("c03gffs", len(text), rerr != nil)
+	verifReach("end")
+}
+
+// printable, tab-free, trimmed, not starting with '#'
+func verifText(name string, n int) string {
+	b := make([]byte, n)
+	for i := range b {
+		lo := byte(0x20)
+		if i == 0 || i == n-1 {
+			lo = 0x21
+		}
+		b[i] = verifByte(name+string(rune('a'+i)), lo, 0x7e)
+	}
+	verifAssume(b[0] != '#')
+	return string(b)
+}
+
+var verifScores = []float64{0, 1, -1.5, 1e-7, math.Inf(1), 123456.75}
+
+// VerifC02_Gff: a GFF feature survives write-then-read; the text carries 1-based inclusive
+// coordinates while the parsed feature exposes the same interval zero-based half-open.
+func VerifC02_Gff() {
+	tl := verifParam("textlen")
+	wide := verifParam("wide")
+	var start, length int
+	if wide == 0 {
+		start = verifInt("start", -verifParam("maxneg"), verifParam("maxpos"))
+	} else {
+		start = verifInt("start", 1, 9)
+	}
+	if wide == 1 {
+		length = verifInt("length", 1, 999)
+	} else {
+		length = verifInt("length", 1, 9)
+	}
+	f := &Feature{
+		SeqName: verifText("seq", tl), Source: verifText("src", tl), Feature: verifText("feat", tl),
+		FeatStart: start, FeatEnd: start + length,
+		FeatStrand: seq.Strand(verifInt("strand", -1, 1)),
+		FeatFrame:  Frame(verifInt("frame", -1, 2)),
+	}
+	if k := verifParam("score"); k > 0 {
+		sc := verifScores[k-1]
+		f.FeatScore = &sc
+	}
+	na := verifParam("attrs")
+	for i := 0; i < na; i++ {
+		is := string(rune('0' + i))
+		tag := string([]byte{verifByte("tag"+is, 'a', 'z')})
+		val := []byte{verifByte("val"+is, 0x21, 0x7e)}
+		verifAssume(val[0] != ';')
+		f.FeatAttributes = append(f.FeatAttributes, Attribute{Tag: tag, Value: string(val)})
+	}
+	if verifParam("comment") == 1 {
+		f.Comments = verifText("cmt", tl)
+	}
+	header := verifParam("header") == 1
+	var buf bytes.Buffer
+	w := NewWriter(&buf, 60, header)
+	hdr := buf.Len()
+	n, err := w.Write(f)
+	verifAssert(err == nil, "write-succeeds")
+	verifAssert(n == buf.Len()-hdr, "reported-byte-count-equals-bytes-emitted")
+	// the text carries one-based inclusive coordinates
+	text := buf.Bytes()[hdr:]
+	cols := bytes.Split(bytes.TrimSpace(text), []byte{'\t'})
+	verifAssert(len(cols) >= 8, "at-least-eight-columns")
+
+	r := NewReader(bytes.NewReader(buf.Bytes()))
+	g0, err := r.Read()
+	verifAssert(err == nil && g0 != nil, "read-back-succeeds")
+	if err != nil || g0 == nil {
+		return
+	}
+	g, ok := g0.(*Feature)
+	verifAssert(ok, "read-back-is-a-feature")
+	if !ok {
+		return
+	}
+	verifAssert(g.SeqName == f.SeqName && g.Source == f.Source && g.Feature == f.Feature, "text-fields")
+	verifAssert(g.FeatStart == f.FeatStart && g.FeatEnd == f.FeatEnd && g.Len() == f.Len(), "start-end-len-preserved")
+	verifAssert(g.FeatStrand == f.FeatStrand, "strand")
+	wantFrame := f.FeatFrame
+	verifAssert(g.FeatFrame == wantFrame, "frame")
+	verifAssert((g.FeatScore == nil) == (f.FeatScore == nil), "score-presence")
+	if g.FeatScore != nil && f.FeatScore != nil {
+		verifAssert(*g.FeatScore == *f.FeatScore, "score-value")
+	}
+	verifAssert(len(g.FeatAttributes) == len(f.FeatAttributes), "attribute-count")
+	if len(g.FeatAttributes) == len(f.FeatAttributes) {
+		for i := range f.FeatAttributes {
+			verifAssert(g.FeatAttributes[i].Tag == f.FeatAttributes[i].Tag && g.FeatAttributes[i].Value == f.FeatAttributes[i].Value, "attributes")
+		}
+	}
+	verifAssert(g.Comments == f.Comments, "comments")
+	_, err = r.Read()
+	verifAssert(err == io.EOF, "single-record-then-eof")
+	verifObserve("c02gff", buf.Len(), n)
+	verifReach("end")
+}
+
+// VerifC02_GffRegion: sequence-region lines and inline sequences round-trip.
+func VerifC02_GffRegion() {
+	tl := verifParam("textlen")
+	var buf bytes.Buffer
+	w := NewWriter(&buf, 3, false)
+	name := []byte(verifText("seq", tl))
+	for _, c := range name {
+		verifAssume(c != ' ')
+	}
+	start := verifInt("start", 0, 999)
+	reg := &Region{Sequence: Sequence{SeqName: string(name)}, RegionStart: start, RegionEnd: start + verifInt("length", 1, 99)}
+	n, err := w.Write(reg)
+	verifAssert(err == nil && n == buf.Len(), "region-write-count")
+	nl := verifParam("len")
+	ls := make([]alphabet.Letter, nl)
+	for i := range ls {
+		ls[i] = alphabet.Letter(verifByte("l"+string(rune('a'+i)), 0x21, 0x7e))
+		verifAssume(alphabet.DNA.IsValid(ls[i]))
+	}
+	s := linear.NewSeq(string(name), ls, alphabet.DNA)
+	before := buf.Len()
+	n, err = w.Write(s)
+	verifAssert(err == nil && n == buf.Len()-before, "sequence-write-count")
+	r := NewReader(bytes.NewReader(buf.Bytes()))
+	g0, err := r.Read()
+	verifAssert(err == nil, "region-read-back")
+	if rg, ok := g0.(*Region); ok {
+		verifAssert(rg.SeqName == reg.SeqName && rg.RegionStart == reg.RegionStart && rg.RegionEnd == reg.RegionEnd, "region-fields")
+	} else {
+		verifFail("region-type")
+	}
+	g1, err := r.Read()
+	verifAssert(err == nil, "sequence-read-back")
+	if sq, ok := g1.(*linear.Seq); ok {
+		verifAssert(sq.Name() == string(name) && sq.Len() == nl, "inline-sequence-name-and-length")
+		if sq.Len() == nl {
+			for i := range ls {
+				verifAssert(sq.Seq[i] == ls[i], "inline-sequence-letters")
+			}
+		}
+	} else {
+		verifFail("sequence-type")
+	}
+	verifObserve("c02gffr", buf.Len())
+	verifReach("end")
+}
+
+// VerifC04_Gff: CRLF or LF, with or without a final newline.
+func VerifC04_Gff() {
+	nrec := verifParam("records")
+	var text []byte
+	for k := 0; k < nrec; k++ {
+		ks := string(rune('0' + k))
+		line := [][]byte{[]byte(verifText("q"+ks, 1)), []byte("s"), []byte("f"), []byte("1" + ks), []byte("2" + ks), []byte("."), {verifByte("st"+ks, 0x21, 0x7e)}, []byte(".")}
+		text = append(text, bytes.Join(line, []byte{'\t'})...)
+		text = append(text, '\n')
+	}
+	parse := func(t []byte) (out []string, errs int) {
+		r := NewReader(bytes.NewReader(t))
+		for k := 0; k < nrec+2; k++ {
+			f, err := r.Read()
+			if err == io.EOF {
+				return
+			}
+			if err != nil {
+				errs++
+				continue
+			}
+			out = append(out, f.Location().Name()+":"+string(rune('0'+f.Start()%10))+string(rune('0'+f.End()%10)))
+		}
+		return
+	}
+	base, berrs := parse(text)
+	var alt []byte
+	switch verifChoice("transform", 3) {
+	case 0:
+		for _, c := range text {
+			if c == '\n' {
+				alt = append(alt, '\r')
+			}
+			alt = append(alt, c)
+		}
+	case 1:
+		alt = append(alt, text[:len(text)-1]...)
+	case 2:
+		for _, c := range text[:len(text)-1] {
+			if c == '\n' {
+				alt = append(alt, '\r')
+			}
+			alt = append(alt, c)
+		}
+	}
+	got, gerrs := parse(alt)
+	verifAssert(len(got) == len(base) && gerrs == berrs, "layout-same-number-of-features")
+	if len(got) == len(base) {
+		for k := range got {
+			verifAssert(got[k] == base[k], "layout-same-features")
+		}
+	}
+	verifObserve("c04gff", nrec, len(base), len(got))
 	verifReach("end")
 }
